@@ -59,7 +59,7 @@ func Load(cfg LoadConfig) (*Program, error) {
 var defaultStubbed = []string{
 	"os", "syscall", "runtime", "reflect", "internal/reflectlite", "sync", "sync/atomic", "time",
 	"fmt", "regexp", "regexp/syntax", "go/parser", "go/scanner", "encoding/json", "unicode",
-	"runtime/debug", "testing", "flag", "internal/bytealg", "internal/cpu", "internal/poll", "io/fs",
+	"runtime/debug", "testing", "flag", "internal/bytealg", "internal/cpu", "internal/poll",
 	"github.com/kr/pretty", "github.com/kr/text", "github.com/goccy/go-yaml", "github.com/goccy/go-yaml/parser",
 	"github.com/goccy/go-yaml/ast", "github.com/goccy/go-yaml/lexer", "github.com/goccy/go-yaml/printer",
 	"github.com/goccy/go-yaml/scanner", "github.com/goccy/go-yaml/token", "github.com/goccy/go-yaml/internal/errors",
